@@ -281,8 +281,9 @@ def main(argv=None):
           "wall_s": round(wall, 2), "violations": len(vio_lines), "inconclusive": inconclusive[:20],
           "model_errors": model_errors[:20], "known_findings": lines}
     if not a.only:
-        os.makedirs(os.path.join(HERE, "evidence"), exist_ok=True)
-        json.dump(ev, open(os.path.join(HERE, "evidence", f"{prop}.json"), "w"), indent=1)
+        evdir = os.environ.get("VF_EVIDENCE_DIR") or os.path.join(HERE, "evidence")     # override: development aid (seed tests)
+        os.makedirs(evdir, exist_ok=True)
+        json.dump(ev, open(os.path.join(evdir, f"{prop}.json"), "w"), indent=1)
     for l in lines: print(l)
     print(f"[{prop}] tier={a.tier} harnesses={len(hs)} paths={tot['paths']} queries={tot['queries']} "
           f"solver={tot['solver_s']:.0f}s obligations={tot['obligations']} discharged={tot['discharged']} "
